@@ -153,9 +153,19 @@ pub fn canon_call(c: &Value) -> Value {
 
 /// Builds a second level from `l` through one of the restore paths. With `lie`, the aggregate
 /// figures carried by the external input are falsified first (they must not be believed).
-pub fn restore_via(l: &PriceLevel, via: &str, lie: bool, low: bool) -> Result<PriceLevel, String> {
-    // the falsified figures: overstated, or (low) understated
-    let (fv, fh, fc): (u64, u64, usize) = if low { (0, 0, 0) } else { (12345, 999, 77) };
+pub fn restore_via(l: &PriceLevel, via: &str, lie: bool, low: bool, only: &str) -> Result<PriceLevel, String> {
+    // the falsified figures: overstated, or (low) understated; `only` = vis | hid | cnt falsifies that one figure and
+    // leaves the other two TRUE (an input whose count is right but whose quantities are not, and so on)
+    let (tv, th, tc) = (l.visible_quantity(), l.hidden_quantity(), l.order_count());
+    let (lv, lh, lc): (u64, u64, usize) = if low { (0, 0, 0) } else { (12345, 999, 77) };
+    // a one-figure lie must really differ from the truth
+    let (lv, lh, lc) = (if lv == tv { tv + 5 } else { lv }, if lh == th { th + 5 } else { lh }, if lc == tc { tc + 5 } else { lc });
+    let (fv, fh, fc) = match only {
+        "vis" => (lv, th, tc),
+        "hid" => (tv, lh, tc),
+        "cnt" => (tv, th, lc),
+        _ => (lv, lh, lc),
+    };
     use std::str::FromStr;
     let mut snap = l.snapshot();
     if lie {
@@ -427,7 +437,8 @@ fn run_once(sched: &Arc<Sched>, sc: &Value, sc_ix: usize, run_ix: usize, micro: 
                     let via = c["via"].as_str().unwrap_or("snapshot").to_string();
                     let lie = c["lie"].as_bool().unwrap_or(false);
                     let low = c["low"].as_bool().unwrap_or(false);
-                    let r = unregistered(|| std::panic::catch_unwind(std::panic::AssertUnwindSafe(|| restore_via(&level, &via, lie, low))));
+                    let only = c["only"].as_str().unwrap_or("").to_string();
+                    let r = unregistered(|| std::panic::catch_unwind(std::panic::AssertUnwindSafe(|| restore_via(&level, &via, lie, low, &only))));
                     let kind = if c["op"] == "fork" { "fork" } else { "restore" };
                     let mut line = json!({"k": kind, "t": w + 1, "via": via, "lie": lie, "st": unregistered(|| state_json(&level, Some(&gen), true))});
                     match r {
